@@ -656,6 +656,21 @@ class Executor:
         st.env = env or {}
         return st
 
+    def enter(self, st, fn, args, tymap=None):
+        """push an entry frame for `fn` on an existing (returned) state: used to run call sequences"""
+        fn.parse()
+        fr = Frame(fn, dict(tymap or {}))
+        for name in fn.decls:
+            fr.locals[name] = Cell(UNINIT)
+        fr.locals.setdefault("_0", Cell(UNINIT))
+        if len(args) != len(fn.args):
+            raise Unsupported(f"{fn.name}: {len(fn.args)} parameters, {len(args)} arguments supplied")
+        for (name, _), v in zip(fn.args, args):
+            fr.locals[name] = Cell(v)
+        st.frames.append(fr)
+        st.fuel = 0
+        return st
+
     def explore(self, st0):
         """run to completion over all feasible paths; returns list of Outcome"""
         outcomes = []
